@@ -5,7 +5,9 @@
    checks of the code; the property's list of requirements stated separately (PropertyValid).
 
    An abstract block is a valid block of a situation (genesis block of a chain with initial
-   height 1 or 5, second block, a later block after a validator-set change) with a set of
+   height 1 or 5, second block, a later block after a validator-set change, and "quorum"
+   situations: previous validator sets of 3-7 members whose total power is 0, 1 and 2 mod 3,
+   where every subset of precommits is blanked / turned into a stray one) with a set of
    field mutations applied; every field holds a CLASS:
      "ok"    = the valid value, RECOMPUTED from the (possibly mutated) rest of the block for
                derived fields (NumTxs, TotalTxs, DataHash, LastCommitHash, Time = median);
@@ -30,7 +32,8 @@
    through the ValidatorIndex fields) exist to exercise exactly that.                     *)
 EXTENDS Integers, Sequences, FiniteSets, TLC, Json
 
-CONSTANTS Sits,        \* set of situations [name, genesis, lastPow, valKeys, resEmpty]
+CONSTANTS Sits,        \* set of situations [name, genesis, lastPow, valKeys, resEmpty, kind]; kind "quorum" = only
+                       \*   the precommits are mutated (sets of every size and power residue mod 3)
           PairsFor,    \* names of the situations for which pairs are enumerated
           PairFields,  \* fields whose mutations take part in the pairs (singles always cover every field)
           ExtraSets    \* [name -> set of mutation sets] enumerated in addition
@@ -38,14 +41,16 @@ CONSTANTS Sits,        \* set of situations [name, genesis, lastPow, valKeys, re
 VARIABLES case, hist
 vars == <<case>>
 
-N == 4                 \* size of LastValidators in the non-genesis situations (= pool size)
+MaxN == 7              \* pool size: LastValidators of a situation = pool keys 1..Len(lastPow), all with positive power
+NV(s) == Len(s.lastPow)
 CV == INSTANCE CommitVerify WITH
-        Plans <- {[new |-> <<1, 1, 1, 1>>, old |-> <<1, 1, 1, 1>>, cls |-> {}, cbs |-> {}, ds |-> {}]},
+        Plans <- {[new |-> <<1, 1, 1, 1, 1, 1, 1>>, old |-> <<1, 1, 1, 1, 1, 1, 1>>, cls |-> {}, cbs |-> {}, ds |-> {}]},
         Calls <- <<>>, H <- 3, R <- 1, commit <- [built |-> FALSE], pc <- 0, hist <- <<>>
 NomH == 3              \* stands for state.LastBlockHeight inside CV
 
-EFields == {"e1", "e2", "e3", "e4"}
-EName(i) == CASE i = 1 -> "e1" [] i = 2 -> "e2" [] i = 3 -> "e3" [] i = 4 -> "e4"
+EFields == {"e1", "e2", "e3", "e4", "e5", "e6", "e7"}
+EName(i) == CASE i = 1 -> "e1" [] i = 2 -> "e2" [] i = 3 -> "e3" [] i = 4 -> "e4" [] i = 5 -> "e5" [] i = 6 -> "e6" [] i = 7 -> "e7"
+EFieldsOf(s) == IF s.genesis THEN {} ELSE {EName(i) : i \in 1..NV(s)}
 Fields == {"height", "version", "appver", "chain", "time", "numtxs", "totaltxs", "lbid", "lchash", "datahash",
            "valhash", "nextvalhash", "conshash", "apphash", "reshash", "proposer", "txs", "lc", "cbid", "lclen"} \cup EFields
 
@@ -70,8 +75,8 @@ Wrong(s, f) ==
     [] f = "lc" -> {"nil"}
     [] f = "cbid" -> IF s.genesis THEN {"A"} ELSE {"B", "nil"}
     [] f = "lclen" -> IF s.genesis THEN {"long"} ELSE {"short", "long"}
-    [] f \in EFields -> IF s.genesis THEN {} ELSE EntryClasses
-Muts(s) == UNION {{[f |-> f, v |-> v] : v \in Wrong(s, f)} : f \in Fields}
+    [] f \in EFields -> IF f \in EFieldsOf(s) THEN EntryClasses ELSE {}
+Muts(s) == UNION {{[f |-> f, v |-> v] : v \in Wrong(s, f)} : f \in (IF s.kind = "quorum" THEN EFieldsOf(s) ELSE Fields)}
 PMuts(s) == {m \in Muts(s) : m.f \in PairFields}
 MutSets(s) == {{}} \cup {{m} : m \in Muts(s)}
               \cup (IF s.name \in PairsFor THEN {{p[1], p[2]} : p \in {q \in PMuts(s) \X PMuts(s) : q[1].f # q[2].f}} ELSE {})
@@ -82,15 +87,15 @@ Apply(ms) == [f \in Fields |-> IF \E m \in ms : m.f = f THEN (CHOOSE m \in ms : 
 Cbid(s, B) == IF B.cbid = "ok" THEN (IF s.genesis THEN "nil" ELSE "A") ELSE B.cbid
 \* entry classes by index (C32 classes)
 Ents(s, B) == IF s.genesis THEN (IF B.lclen = "long" THEN <<"ok">> ELSE <<>>)
-              ELSE LET n == IF B.lclen = "short" THEN N - 1 ELSE IF B.lclen = "long" THEN N + 1 ELSE N IN
-                   [i \in 1..n |-> IF i <= N THEN B[EName(i)] ELSE "ok"]
+              ELSE LET n == IF B.lclen = "short" THEN NV(s) - 1 ELSE IF B.lclen = "long" THEN NV(s) + 1 ELSE NV(s) IN
+                   [i \in 1..n |-> IF i <= NV(s) THEN B[EName(i)] ELSE "ok"]
 \* C32 class -> class of CommitVerify (what VerifyCommit can see of it)
 Base(c) == IF c \in {"ok", "tsA", "tsOldA", "ix1A", "ixtsA"} THEN "okA" ELSE IF c = "nosigA" THEN "badA" ELSE c
 BaseEnts(s, B) == [i \in 1..Len(Ents(s, B)) |-> Base(Ents(s, B)[i])]
 MkC(pw, cb, ents) == [built |-> TRUE, new |-> pw, old |-> pw, cbid |-> cb, ents |-> ents, keys |-> CV!Keys(pw),
                       n |-> Len(CV!Keys(pw)), ch |-> CV!HeightOf(ents), cr |-> CV!RoundOf(ents)]
 Commit(s, B) == MkC(s.lastPow, Cbid(s, B), BaseEnts(s, B))
-EntriesUnchanged(s, B) == B.lclen = "ok" /\ \A f \in EFields : B[f] = "ok"
+EntriesUnchanged(s, B) == B.lclen = "ok" /\ \A f \in EFieldsOf(s) : B[f] = "ok"
 
 \* timestamps and the (unsigned) ValidatorIndex field of precommit i
 TS(c, i) == IF c \in {"tsA", "ixtsA"} THEN 100 + i ELSE IF c = "tsOldA" THEN -5 - i ELSE 10 * i
@@ -102,17 +107,17 @@ SortTS(S) == IF S = {} THEN <<>> ELSE LET x == CHOOSE x \in S : \A y \in S : x.t
 SumW(S) == IF S = {} THEN 0 ELSE LET x == CHOOSE x \in S : TRUE IN x.w + SumW(S \ {x})
 Walk(q, m) == IF Len(q) = 0 THEN ZeroTime ELSE IF m <= q[1].w THEN q[1].ts ELSE Walk(Tail(q), m - q[1].w)
 WMedian(S) == Walk(SortTS(S), SumW(S) \div 2)
-PresentIdx(ents) == {i \in 1..Len(ents) : i <= N /\ ents[i] # "nil"}
+PresentIdx(s, ents) == {i \in 1..Len(ents) : i <= NV(s) /\ ents[i] # "nil"}
 \* MedianTime with each precommit weighted by the validator at its index
-TrueMedian(s, ents) == WMedian({[i |-> i, ts |-> TS(ents[i], i), w |-> s.lastPow[i]] : i \in PresentIdx(ents)})
+TrueMedian(s, ents) == WMedian({[i |-> i, ts |-> TS(ents[i], i), w |-> s.lastPow[i]] : i \in PresentIdx(s, ents)})
 \* ... and as weighted through the ValidatorIndex fields (0 where the field names nobody)
 AltMedian(s, ents) == WMedian({[i |-> i, ts |-> TS(ents[i], i),
-                                w |-> IF Idx(ents[i], i) \in 1..N THEN s.lastPow[Idx(ents[i], i)] ELSE 0] : i \in PresentIdx(ents)})
-BaseEntsOK == [i \in 1..N |-> "ok"]
+                                w |-> IF Idx(ents[i], i) \in 1..NV(s) THEN s.lastPow[Idx(ents[i], i)] ELSE 0] : i \in PresentIdx(s, ents)})
+BaseEntsOK(s) == [i \in 1..NV(s) |-> "ok"]
 Time(s, B) ==
   IF s.genesis THEN (CASE B.time = "ok" -> 0 [] B.time = "plus" -> 1 [] B.time = "before" -> -1)
   ELSE CASE B.time = "ok" -> TrueMedian(s, Ents(s, B))
-         [] B.time = "stale" -> TrueMedian(s, BaseEntsOK)
+         [] B.time = "stale" -> TrueMedian(s, BaseEntsOK(s))
          [] B.time = "alt" -> AltMedian(s, Ents(s, B))
          [] B.time = "last" -> 0
          [] B.time = "before" -> -1
@@ -166,7 +171,7 @@ ValidateBlock(s, B, c) ==
   ELSE IF ~PlainHashOK(B.valhash) THEN "validatorshash"
   ELSE IF ~PlainHashOK(B.nextvalhash) THEN "nextvalidatorshash"
   ELSE IF s.genesis /\ Len(Ents(s, B)) # 0 THEN "genesis-precommits"
-  ELSE IF ~s.genesis /\ Len(Ents(s, B)) # N THEN "commit-size"
+  ELSE IF ~s.genesis /\ Len(Ents(s, B)) # NV(s) THEN "commit-size"
   ELSE LET vc == IF s.genesis THEN "accept" ELSE CV!VerifyCommit(c, NomH, "A")   \* (chain id, LastBlockID, height-1)
            t == Time(s, B) IN
   IF vc # "accept" THEN "commit:" \o vc
@@ -193,11 +198,16 @@ InternallyConsistent(s, B, c) ==
   /\ (B.lc = "ok" => CV!ValidateBasic(c) = "ok")
   /\ (~s.genesis => CV!AllPresentVerify(c))
 
+\* power of the previous validator set behind the previous block id in the block's LastCommit
+\* (-1 when the commit does not line up with the set)
+TallyA(s, B, c) == IF s.genesis \/ B.lc # "ok" \/ Len(c.ents) # NV(s) THEN -1 ELSE CV!Tally(c, "A")
+
 Init == case = [done |-> FALSE] /\ hist = <<>>
 Check(s, ms) ==
   LET B == Apply(ms) c == Commit(s, B) r == ValidateBlock(s, B, c) IN
   /\ case' = [done |-> TRUE, sit |-> s, b |-> B, c |-> c, why |-> r]
   /\ hist' = <<[act |-> "Validate", sit |-> s.name, muts |-> ms, time |-> Time(s, B),
+                total |-> CV!Total(s.lastPow), tally |-> TallyA(s, B, c),
                 reply |-> IF r = "accept" THEN "accept" ELSE "reject", why |-> r]>>
 Next == /\ ~case.done
         /\ \E s \in Sits : \E ms \in MutSets(s) : Check(s, ms)
@@ -206,6 +216,14 @@ View == vars
 
 Sound == case.done => (case.why = "accept" => PropertyValid(case.sit, case.b, case.c))
 Complete == case.done => ((PropertyValid(case.sit, case.b, case.c) /\ InternallyConsistent(case.sit, case.b, case.c)) => case.why = "accept")
+\* the quorum clause over integers: with everything else in order, the LastCommit is accepted iff the
+\* tallied power for the previous block id times 3 exceeds 2 times the total power of the previous set
+QuorumExact == (case.done /\ ~case.sit.genesis) =>
+   LET s == case.sit B == case.b c == case.c IN
+   ( /\ B.lc = "ok" /\ CV!WellFormed(c, NomH) /\ c.cbid = "A" /\ CV!AllPresentVerify(c)
+     /\ HeightOK(B) /\ B.chain = "ok" /\ LbidOK(s, B) /\ PlainHashOK(B.apphash) /\ ResHashOK(s, B)
+     /\ PlainHashOK(B.valhash) /\ PlainHashOK(B.nextvalhash) /\ TimeOK(s, B) /\ InternallyConsistent(s, B, c) )
+   => ((case.why = "accept") <=> (3 * CV!Tally(c, "A") > 2 * CV!Total(s.lastPow)))
 TypeOK == case.done \in BOOLEAN
 
 Emit == PrintT(<<"TRACE", ToJson(hist)>>)
